@@ -6,3 +6,4 @@ package dicescript
 func verifMeterDispatch() {}
 func verifMeterRoll()     {}
 func verifMeterFate()     {}
+func verifMeterDraw()     {}
